@@ -28,6 +28,53 @@ type c16Case struct {
 	Strace   bool     `json:"strace,omitempty"`
 	// Stale: the output directories already hold (longer) files of the same names from an earlier run
 	Stale bool `json:"stale,omitempty"`
+	// ArgStyles: spelling of each flag (cli.FlagArgs); [0] is the input flag (-f / -d), the
+	// others are parallel to Subset. Missing entries mean the short form.
+	ArgStyles []int `json:"arg_styles,omitempty"`
+	// FileLast: the input flag comes after the output flags
+	FileLast bool `json:"file_last,omitempty"`
+	// AbsOut: output directories are given as absolute paths
+	AbsOut bool `json:"abs_out,omitempty"`
+	// InName: name of the input file inside the working directory ("" = absolute path of in.dsl)
+	InName string `json:"in_name,omitempty"`
+}
+
+func (k c16Case) style(i int) int {
+	if i < len(k.ArgStyles) {
+		return k.ArgStyles[i]
+	}
+	return 0
+}
+
+// compileArgs builds the command line of one compile run in dir; od maps language -> directory
+// as written on the command line.
+func (k c16Case) compileArgs(dir string, word bool, od map[string]string) []string {
+	in := filepath.Join(dir, "in.dsl")
+	inArg := in
+	if k.InName != "" {
+		in = filepath.Join(dir, k.InName)
+		inArg = k.InName
+	}
+	_ = os.MkdirAll(filepath.Dir(in), 0o755)
+	_ = os.WriteFile(in, []byte(k.Text), 0o644)
+	var args []string
+	if word {
+		args = append(args, "compile")
+	}
+	if !k.FileLast {
+		args = append(args, cli.FlagArgs("file", k.style(0), inArg)...)
+	}
+	for i, l := range k.Subset {
+		d := od[l]
+		if k.AbsOut {
+			d = filepath.Join(dir, d)
+		}
+		args = append(args, cli.FlagArgs(l, k.style(i+1), d)...)
+	}
+	if k.FileLast {
+		args = append(args, cli.FlagArgs("file", k.style(0), inArg)...)
+	}
+	return args
 }
 
 func evalC16(k c16Case) []pbt.Violation {
@@ -42,7 +89,7 @@ func evalC16(k c16Case) []pbt.Violation {
 	dir := cli.Scratch("c16")
 	defer os.RemoveAll(dir)
 	// --- format -d
-	r := cli.Run(dir, 60*time.Second, nil, nil, cli.Bin(), "format", "-d", k.Text)
+	r := cli.Run(dir, 60*time.Second, nil, nil, cli.Bin(), append([]string{"format"}, cli.FlagArgs("dsl", k.style(0), k.Text)...)...)
 	so := string(r.Stdout)
 	if werr == nil {
 		if r.Exit != 0 {
@@ -56,7 +103,14 @@ func evalC16(k c16Case) []pbt.Violation {
 	// --- format -f
 	fp := filepath.Join(dir, "f.dsl")
 	_ = os.WriteFile(fp, []byte(k.Text), 0o644)
-	r = cli.Run(dir, 60*time.Second, nil, nil, cli.Bin(), "format", "-f", fp)
+	fpArg := fp
+	if k.InName != "" {
+		fp = filepath.Join(dir, k.InName)
+		fpArg = k.InName
+		_ = os.MkdirAll(filepath.Dir(fp), 0o755)
+		_ = os.WriteFile(fp, []byte(k.Text), 0o644)
+	}
+	r = cli.Run(dir, 60*time.Second, nil, nil, cli.Bin(), append([]string{"format"}, cli.FlagArgs("file", k.style(1), fpArg)...)...)
 	after, _ := os.ReadFile(fp)
 	if werr == nil {
 		if r.Exit != 0 {
@@ -127,16 +181,11 @@ func evalC16Compile(k c16Case) []pbt.Violation {
 		// success, with or without the subcommand word
 		for _, word := range []bool{true, false} {
 			dir := cli.Scratch("c16r")
-			in := filepath.Join(dir, "in.dsl")
-			_ = os.WriteFile(in, []byte(k.Text), 0o644)
-			var args []string
-			if word {
-				args = append(args, "compile")
-			}
-			args = append(args, "-f", in)
+			od := map[string]string{}
 			for _, l := range k.Subset {
-				args = append(args, cli.Flags[l], filepath.Join("out", l))
+				od[l] = filepath.Join("out", l)
 			}
+			args := k.compileArgs(dir, word, od)
 			r := cli.Run(dir, 120*time.Second, nil, nil, cli.Bin(), args...)
 			os.RemoveAll(dir)
 			if r.Exit == 0 && !r.TimedOut {
@@ -152,23 +201,15 @@ func evalC16Compile(k c16Case) []pbt.Violation {
 	for i, word := range []bool{true, false} {
 		dir := cli.Scratch("c16c")
 		defer os.RemoveAll(dir)
-		in := filepath.Join(dir, "in.dsl")
-		_ = os.WriteFile(in, []byte(k.Text), 0o644)
-		var args []string
-		if word {
-			args = append(args, "compile")
-		}
-		// flags in a shuffled-but-deterministic order: -f may come anywhere after the first flag
-		args = append(args, "-f", in)
 		outDir := map[string]string{}
 		for i, l := range k.Subset {
 			outDir[l] = filepath.Join("out", l)
 			if i < len(k.OutNames) && k.OutNames[i] != "" {
 				outDir[l] = k.OutNames[i]
 			}
-			// relative names: the tool runs with the scratch directory as working directory
-			args = append(args, cli.Flags[l], outDir[l])
 		}
+		// relative names (unless AbsOut): the tool runs with the scratch directory as working directory
+		args := k.compileArgs(dir, word, outDir)
 		if k.Stale {
 			for _, l := range k.Subset {
 				for fname, content := range ref.Files[l] {
@@ -217,6 +258,9 @@ func evalC16Compile(k c16Case) []pbt.Violation {
 		}
 		// nothing else: only in.dsl, out/<requested>, and the trace file
 		allowed := map[string]bool{"in.dsl": true, "trace.txt": true}
+		if k.InName != "" {
+			allowed = map[string]bool{filepath.Clean(k.InName): true, "trace.txt": true}
+		}
 		for _, l := range k.Subset {
 			for name := range ref.Files[l] {
 				allowed[filepath.Join(outDir[l], name)] = true
@@ -326,6 +370,7 @@ func TestC16(t *testing.T) {
 			if k.Stale {
 				c.Class("compile-into-stale-directory")
 			}
+			drawArgForms(rt, c, &k, len(sub))
 			c.Eval()
 			c.Class(fmt.Sprintf("compile-%d-targets", len(sub)))
 			if len(sub) >= 2 {
@@ -362,6 +407,8 @@ func TestC16(t *testing.T) {
 			cls = "format-blank-text"
 		}
 		k := c16Case{Mode: "format", Text: text}
+		drawArgForms(rt, c, &k, 1)
+		k.FileLast, k.AbsOut = false, false
 		// the C library keeps state between calls only if it is buggy: call it on other texts in between
 		if rapid.Bool().Draw(rt, "lib_sequence") {
 			other := genText(rt, c, dsl.AnywhereComments, false, avoid).Text
@@ -381,4 +428,32 @@ func TestC16(t *testing.T) {
 		}
 		c.Report(rt, k, evalC16(k))
 	})
+}
+
+// drawArgForms draws how the command line is spelled: every flag in its short or long form, with
+// a blank, `=` or nothing between flag and value, the input flag first or last, relative or
+// absolute output directories, and the input file by relative name.
+func drawArgForms(rt *rapid.T, c *pbt.Collector, k *c16Case, nflags int) {
+	if rapid.IntRange(0, 1).Draw(rt, "plain_argv") == 0 {
+		return
+	}
+	k.ArgStyles = make([]int, nflags+1)
+	for i := range k.ArgStyles {
+		k.ArgStyles[i] = rapid.IntRange(0, 4).Draw(rt, fmt.Sprintf("arg_style%d", i))
+		c.Class(fmt.Sprintf("flag-spelling-%d", k.ArgStyles[i]))
+	}
+	k.FileLast = rapid.Bool().Draw(rt, "file_flag_last")
+	k.AbsOut = rapid.IntRange(0, 2).Draw(rt, "abs_out") == 0
+	if rapid.IntRange(0, 2).Draw(rt, "in_name") == 0 {
+		k.InName = rapid.SampledFrom([]string{"in.dsl", "./in.dsl", "proto/in.dsl", "my proto.dsl", "format", "compile.dsl", "in"}).Draw(rt, "in_file_name")
+		for _, on := range k.OutNames {
+			if on == k.InName {
+				k.InName = "in.dsl"
+			}
+		}
+		c.Class("input-file-by-relative-name")
+	}
+	if k.AbsOut {
+		c.Class("absolute-output-directories")
+	}
 }
